@@ -8,10 +8,13 @@ def cubes_noloss(tier):
         combos = [("local", "copy", False), ("local", "hardlink", True), ("base", "symlink", False)]
         out = [dict(cls=c, link=l, state=st, s0=s, nkeys=2) for c, l, st in combos for s in range(5)]
         out += [dict(cls="local", link="copy", target="file"), dict(cls="base", link="hardlink", target="file", state=True)]
+        # a dangling symlink left in the workspace directory (the dry-run staging of the workspace cannot read it)
+        out += [dict(cls=c, link=l, state=False, s0=s, nkeys=2, dangling=True) for c, l in (("local", "copy"), ("base", "symlink")) for s in (0, 3)]
         return out
     out = [dict(cls=c, link=l, state=st, s0=s, nkeys=2) for c in ("local", "base") for l in LINKS for st in (False, True) for s in range(5)]
     out += [dict(cls="local", link=l, state=False, s0=s, nkeys=3, _w=5) for l in ("copy", "symlink") for s in range(5)]
     out += [dict(cls=c, link=l, target="file", state=st) for c in ("local", "base") for l in LINKS for st in (False, True)]
+    out += [dict(cls=c, link=l, state=False, s0=s, nkeys=2, dangling=True) for c in ("local", "base") for l in LINKS for s in range(5)]
     return out
 
 
@@ -55,9 +58,8 @@ SPEC = Spec(
           encodes="State.save_link/set_link/get_unused_links/remove_links, utils.get_mtime_and_size/_tokenize_mtimes/to_nanoseconds",
           stubs=("diskcache links table -> dict", "model filesystem")),
     ],
-    assumptions=["cache objects referenced by the target are present and intact", "no ignore filters; no symlinks or special files in the prior workspace"],
-    outside=["an affirmative prompt / force=True (C10)", "workspaces containing broken symlinks (suspected: FileNotFoundError from the dry-run build is "
-             "swallowed in checkout._diff and the old tree is treated as absent - outside the bound, not established)", "more than 3 keys"],
+    assumptions=["cache objects referenced by the target are present and intact", "no ignore filters; no special files in the prior workspace; symlinks only as the dangling link of the `dangling` cubes"],
+    outside=["an affirmative prompt / force=True (C10)", "symlinks in the workspace other than one dangling link at the top of the workspace directory", "more than 3 keys"],
     explanation="CrossHair runs the real checkout stack on the model workspace; prior state per key, stray file, relink and prompt are symbolic; "
                 "oracle: every byte string that disappeared from a path must hash to an intact object of the cache, and uncached data in the way "
                 "must produce PromptError.",
